@@ -462,6 +462,22 @@ def r7_every_advertised_cipher_considered(cx):
         dl = op_local(tt["discr"])
         if dl is None or dl not in derived:
             bad.append(s2)
+    # ... and the loop visits every entry of the field: its bound, as a term over the field length, is len / 5
+    from ..arith import term_of, evaluate, leaves, show
+    from ..mirutil import iter_source
+    src = iter_source(rf, li)
+    bound_ok, bound_txt = False, "loop bound not recognised"
+    if src is not None and not src.get("p"):
+        dsrc = defuse(rf).single_def(src["l"])
+        if dsrc and dsrc[0] == "stmt" and dsrc[3]["rv"]["k"] == "aggregate" and dsrc[3]["rv"].get("adt", "").endswith("ops::Range"):
+            lo, hi = dsrc[3]["rv"]["ops"]
+            th = term_of(rf, hi, auto_vars=True)
+            vs = sorted({x[1] for x in leaves(th) if x[0] == "var"})
+            bound_txt = show(th)
+            if op_const(lo) == 0 and len(vs) == 1 and not [x for x in leaves(th) if x[0] not in ("c", "var")]:
+                bound_ok = all(evaluate(th, {vs[0]: n}) == n // 5 for n in list(range(0, 200)) + [65535, 65534, 1000])
+    cx.check("every-entry-visited", bound_ok, site_of(rf, li.header),
+             "the list loop runs once per 5-byte entry of the field (bound = field length / 5 for every length; found %s)" % bound_txt, how="arith")
     cx.floor("push-deciding-branches", checked, 1, "branches inside the list loop that decide whether an entry is kept")
     cx.check("entry-kept-by-id-only", not bad, site_of(rf, bad[0]) if bad else site_of(rf, pb),
              "whether an advertised cipher is kept depends on its id byte only (not on its position, the entries kept so far or its speed): %d deciding branch(es), %d foreign" % (checked, len(bad)))
